@@ -18,6 +18,8 @@ func main() {
 		cmdLexTrace(a)
 	case "prog-replay":
 		cmdProgReplay(a)
+	case "parse-trace-check":
+		cmdParseTraceCheck(a)
 	case "replay":
 		cmdReplay(a)
 	case "lex-trace-check":
